@@ -12,7 +12,7 @@ ENGINE = "E1"
 TECHNIQUE = "bounded exhaustive enumeration of $not placements x arguments x listings on the real code vs reference matcher"
 RULE = ("instruction level: $not[X] for X in {plain item, item with operands, $or, $and of two (X spans 2 instructions), "
         "$and_any_order, $not (double negation), nested $or-of-$and} in leading / inner / trailing position, repeated "
-        "(times 2, {1,2}, {0,1}), two $not in a row, inside $or and $and, with plain neighbours from a 3-item pool; operand "
+        "(times 2, {1,2}, {0,1}), two $not in a row, inside $or and $and, with plain neighbours from a 3-item pool, a repeated $not referenced twice through a YAML alias, two matcher objects of one rule under different flag settings built before either is used; operand "
         "level: $not[x] for x in {name, $or of names, $and of two names} as only / first / middle / last operand item with "
         "plain neighbours, all 4 flag settings for the single-name forms; $not meeting capture groups (captures defined after "
         "one or two $not items, back-references inside the argument of a $not at instruction and operand level); x EVERY listing up to the bound (length 4 "
@@ -55,6 +55,8 @@ def instr_rules(tier):
         for t in (2, {"min": 1, "max": 2}, {"min": 0, "max": 1}):
             nt = {"$not": [X], "times": t}
             pats += [[nt], [nt, "ret"], ["mov", nt], ["mov", nt, "ret"]]
+            if t == 2:      # the SAME mapping object twice: written by YAML as an anchor and an alias
+                pats += [[nt, "ret", nt], ["push", nt, nt]]
         pats += [[n, n], [n, {"$not": ["ret"]}], [{"$not": ["push"]}, n, "ret"]]
         pats += [[{"$or": [n, "ret"]}], [{"$or": [n, "ret"]}, "push"], [{"$and": [n, "push"]}], ["mov", {"$and": [n, n]}]]
         for p in pats:
@@ -121,7 +123,11 @@ LONGLIST = [(["mov", {"$not": ["mov"]}, "ret"], [("mov", ["%rax", "%rbx"]), ("pu
             (["push", {"$not": [{"$and": ["nop", "nop"]}]}, "ret"], [("push", ["%rax"]), ("nop", []), ("ret", [])])]
 
 
+INTERLEAVE_RULES = [[{"$not": ["ov"]}, "push"], [{"$not": [{"mov": ["rax"]}]}, "ret"], [{"mov": [{"$not": ["ax"]}, "rbx"]}], ["mov", {"$not": ["pus"]}]]
+
+
 def run_shard(shard, tier, h, res, known):
+    e1.run_interleaved(shard, h, res, known, INTERLEAVE_RULES, e1.get_lsets(h, tier, build_lsets)["instr"])
     e1.run_long_family(h, res, known, shard, LONGLIST, [32800] if tier == "quick" else [8300, 32800, 65600], prop=ID)
     e1.run_rules(h, res, known, all_rules(tier), e1.get_lsets(h, tier, build_lsets), shard, prop=ID)
 
@@ -145,6 +151,8 @@ def controls(h):
 
 
 def replay(case, h):
+    if case.get("family") == "interleave":
+        return e1.replay_interleaved(case, h)
     if case.get("family") == "longlisting":
         return e1.replay_long_case(case, h)
     return e1.replay_case(case, h, want=("verdict", "aligned", "genuine"))
